@@ -111,23 +111,28 @@ def dec(d, resolve=None):
     raise ValueError(f"cannot decode {d!r}")
 
 
-def deep_eq(a, b):
-    """Structural equality (DESIGN §3.4): same concrete types, NaN == NaN, works for eq=False models."""
+def deep_eq(a, b, own_eq=False):
+    """Structural equality (DESIGN §3.4): same concrete types, NaN == NaN, works for eq=False models.
+
+    own_eq=True compares leaf values of one type with their own `==` (so 0.0 == -0.0 and a time with offset 0 equals the same
+    time without offset): for properties that promise an *equal* object rather than one that writes the same document."""
     if type(a) is not type(b):
         return False
     if dataclasses.is_dataclass(a):
-        return all(deep_eq(getattr(a, f.name), getattr(b, f.name)) for f in dataclasses.fields(a))
+        return all(deep_eq(getattr(a, f.name), getattr(b, f.name), own_eq) for f in dataclasses.fields(a))
     if isinstance(a, (list, tuple)) and not hasattr(a, "_fields"):
-        return len(a) == len(b) and all(map(deep_eq, a, b))
+        return len(a) == len(b) and all(deep_eq(x, y, own_eq) for x, y in zip(a, b))
     if isinstance(a, dict):
-        return a.keys() == b.keys() and all(deep_eq(a[k], b[k]) for k in a)
+        return a.keys() == b.keys() and all(deep_eq(a[k], b[k], own_eq) for k in a)
     if isinstance(a, float):
-        return (a == b and math.copysign(1, a) == math.copysign(1, b)) or (math.isnan(a) and math.isnan(b))
+        return (a == b and (own_eq or math.copysign(1, a) == math.copysign(1, b))) or (math.isnan(a) and math.isnan(b))
     if isinstance(a, Decimal):
         return (a.is_nan() and b.is_nan()) or a == b
     if isinstance(a, QName):
         return a.text == b.text
     if isinstance(a, (XmlDate, XmlTime, XmlDateTime)):
+        if own_eq:
+            return a == b
         return tuple(a) == tuple(b)           # field by field, not through the overloaded operators
     if isinstance(a, XmlDuration):
         return a.data == b.data
